@@ -18,7 +18,7 @@ from vlib.verdict import Case
 
 PROPERTY = 'C20'
 MANIFEST = {
- 'level_text': 'Lean 4 theorems about a model of Irc.addCallback/getCallback/removeCallback, IrcCallback/Owner/Misc.callPrecedence and the control flow of Owner.load/unload/reload: for every iteration order of the Python sets the computed order is a permutation of the callbacks in which every resolved before/after edge holds (order_sound), Owner is first and Misc last (owner_first, misc_last), constraint sets admitting no order are rejected and leave the list unchanged (cycle_rejected) while every constraint set that admits an order is accepted (acyclic_accepted), the loop never needs more rounds than callbacks (fuel_enough); along every history of load/unload/reload with arbitrary failures the list keeps unique names, satisfied edges and Owner first (history_inv), failed loads and attempts on Owner change nothing (load_failure_preserves, owner_stays), a reload whose module cannot be imported (ImportError or any other exception) puts the untouched old instance back (reload_failure_preserves), a plugin naming itself in callBefore/callAfter is rejected as a cycle (self_reference_rejected), the answered commands are exactly those of the registered plugins (commands_union), also through the C14 model of findCallbacksForArgs/finalEval (commands_dispatch); the persisted supybot.plugins.<Name> flags follow load/unload (flag_tracks) and the start-up loader Owner._loadPlugins keeps the invariant, drops nothing and adds only flagged or forced-important plugins (startup_inv, unloaded_stays_out); all Irc objects (networks) refer to one list object that the commands only mutate in place, so every network sees the same list after any history (shared_view, shared_history), also networks connected or disconnected in the middle of it (late_network_sees_all); command renames (Owner.rename/unrename, re-applied by loadPluginClass on every load) change nothing but command names (renames_keep_identity). The model is tied to /repo by a differential run of seeded random histories against a live bot with synthetic plugins (arbitrary callBefore/callAfter incl. unknown names, cycles, case variants, raising __init__/die/import), which also evaluates the property statement on the implementation after every step.',
+ 'level_text': 'Lean 4 theorems about a model of Irc.addCallback/getCallback/removeCallback, IrcCallback/Owner/Misc.callPrecedence and the control flow of Owner.load/unload/reload: for every iteration order of the Python sets the computed order is a permutation of the callbacks in which every resolved before/after edge holds (order_sound), Owner is first and Misc last (owner_first, misc_last), constraint sets admitting no order are rejected and leave the list unchanged (cycle_rejected) while every constraint set that admits an order is accepted (acyclic_accepted), the loop never needs more rounds than callbacks (fuel_enough); along every history of load/unload/reload with arbitrary failures the list keeps unique names, satisfied edges and Owner first (history_inv), failed loads and attempts on Owner change nothing (load_failure_preserves, owner_stays), a reload whose module cannot be imported (ImportError or any other exception) puts the untouched old instance back (reload_failure_preserves), a plugin naming itself in callBefore/callAfter is rejected as a cycle (self_reference_rejected), the answered commands are exactly those of the registered plugins (commands_union), also through the C14 model of findCallbacksForArgs/finalEval (commands_dispatch); the persisted supybot.plugins.<Name> flags follow load/unload (flag_tracks) and the start-up loader Owner._loadPlugins keeps the invariant, drops nothing and adds only flagged or forced-important plugins (startup_inv, unloaded_stays_out); all Irc objects (networks) refer to one list object that the commands only mutate in place, so every network sees the same list after any history (shared_view, shared_history), also networks connected or disconnected in the middle of it (late_network_sees_all); command renames (Owner.rename/unrename, re-applied by loadPluginClass on every load) change nothing but command names (renames_keep_identity). The model is tied to /repo by a differential run of seeded random histories against a live bot with synthetic plugins (arbitrary callBefore/callAfter incl. unknown names, cycles, case variants, raising __init__/die/callPrecedence/import with %-laden messages while the production logging path runs, method names shared between plugins as command and as helper), which also evaluates the property statement on the implementation after every step.',
  'level_note': 'Trusted: Lean kernel; axioms propext/Classical.choice/Quot.sound only; the correspondence harness and its synthetic plugins; names are ASCII (str.lower modelled on ASCII). Modelled and proved: the topological sort of addCallback with its set-order freedom, case-insensitive lookup/removal, the callPrecedence variants (a self-reference is a one-element cycle), the success/failure paths of load (incl. --deprecated) / unload / reload, the flag registration of conf.registerPlugin, the start-up loader with importantPlugins / alwaysLoadImportant, Irc objects created and killed during a history, Owner.rename / unrename and the re-application of renames at load time (a rename whose command no longer exists in the version on disk makes every later load of that plugin raise). Exercised only: importing modules from disk, conf.registerPlugin flags, command dispatch of the probe commands (C14 covers dispatch). Known finding kept in the model: reload loses the plugin when the new constructor raises or the new instance closes a cycle, because the old instance has been killed by then (reload_failure_partial, reload_ctor_counter).',
  'technique': 'Lean 4 proof (loop invariants over the extraction rounds, history induction) + differential correspondence on a live bot',
  'design_ref': 'DESIGN.md §6 C20',
@@ -67,12 +67,17 @@ def get_bot():
         while b.irc2.takeMsg() is not None:
             pass
         b.ircs = [b.irc, b.irc2]
+        # the production logging path: supybot formats every record (the firewall around die()/callPrecedence()/__call__
+        # reports what it swallows through it); records of level WARNING and above go to the scratch log file
+        import logging
+        logging.disable(logging.NOTSET)
+        b.conf.supybot.log.level.set('WARNING')
         b.c20_ready = True
     return b, _cfg
 
 def reset_cfg(c):
     c.before = {}; c.after = {}; c.init_raises = set(); c.die_raises = set(); c.import_fails = set()
-    c.import_other = set(); c.log = []; c.seen = []; c.version = {}; c.serial = 0; c.deprecated = set()
+    c.import_other = set(); c.log = []; c.seen = []; c.version = {}; c.serial = 0; c.deprecated = set(); c.prec_raises = set()
 
 def say(b, text, which=0):
     """send a command of the owner on the given network, return the texts of the replies"""
@@ -265,15 +270,23 @@ def real_name(n):
     return None
 
 # ---------------- running a trial on the implementation ----------------
+def shared_name(n):
+    """the method name VtOrd(2k) and VtOrd(2k+1) share: a command in the former, a helper in the latter"""
+    return 'vtsh%d' % (int(n[-1]) // 2)
+
 def commands_of(n, version):
     if n not in VT:
         return []
-    return ['ord' + n[-1]] + (['alt' + n[-1]] if version % 2 == 1 else [])
+    return (['ord' + n[-1]] + (['alt' + n[-1]] if version % 2 == 1 else []) +
+            ([shared_name(n)] if int(n[-1]) % 2 == 0 else []))
 
 def describe_plugin(c, n, version=None):
     """model description of plugin n (its declared constraints, kind, probe command)"""
     kind = 'owner' if n == 'Owner' else 'misc' if n == 'Misc' else 'plain'
     enc = lambda xs: '-' if not xs else '+'.join(wire.enc(x) for x in xs)
+    if n in getattr(c, 'prec_raises', ()):
+        # its callPrecedence raises: the firewall answers ([], []) in its place, the plugin has no constraints
+        return '%s/%s/-/-/%s' % (wire.enc(n), kind, enc(commands_of(n, c.version.get(n, 0) if version is None else version)))
     cmds = commands_of(n, c.version.get(n, 0) if version is None else version)
     return '%s/%s/%s/%s/%s' % (wire.enc(n), kind, enc(c.before.get(n, [])), enc(c.after.get(n, [])), enc(cmds))
 
@@ -289,7 +302,7 @@ def resolved_constraints(b, c):
     out = []
     for cb in cbs:
         n = cb.name()
-        if n not in VT:
+        if n not in VT or n in getattr(c, 'prec_raises', ()):
             continue
         selfref = False
         decl = []
@@ -314,6 +327,7 @@ def run_trial(b, c, trial):
     c.before = {k: list(v) for k, v in trial['before'].items()}
     c.after = {k: list(v) for k, v in trial['after'].items()}
     c.deprecated = set(trial.get('deprecated', ()))
+    c.prec_raises = set(trial.get('prec_raises', ()))
     important = list(trial.get('important', BASE)); always = trial.get('always', True)
     b.conf.supybot.commands.defaultPlugins.importantPlugins.setValue(set(important))
     b.conf.supybot.plugins.alwaysLoadImportant.setValue(bool(always))
@@ -424,6 +438,30 @@ def run_trial(b, c, trial):
                     elif not should and ok:
                         problems.append('step %d (%s %s): no registered plugin has the command %s, yet network %d answers %r' % (
                             si, kind, nm, cmd, net, rs))
+            # the method name this plugin shares with its neighbour: a command in VtOrd(2k), a helper in VtOrd(2k+1)
+            sh = shared_name(v); owner_n = 'VtOrd%d' % (2 * (int(v[-1]) // 2))
+            owner_inst = None
+            for cb_ in b.irc.callbacks:
+                if cb_.name() == owner_n:
+                    owner_inst = cb_
+            if sh not in probed_cmds:
+                probed_cmds.add(sh)
+                for net in nets:
+                    rs = say(b, sh, net)
+                    ok = len(rs) == 1 and rs[0].startswith('%s shared g' % owner_n)
+                    if net == 0 and ok:
+                        answered.append(sh)
+                    if owner_inst is not None and not (ok and rs[0].endswith(' g%d' % owner_inst.vt_serial)):
+                        problems.append('step %d (%s %s): %s is registered and has the command %s, but network %d answers %r' % (
+                            si, kind, nm, owner_n, sh, net, rs))
+                    elif owner_inst is None and (ok or any('shared' in x or 'TypeError' in x for x in rs)):
+                        problems.append('step %d (%s %s): no registered plugin has the command %s, yet network %d answers %r' % (
+                            si, kind, nm, sh, net, rs))
+            if inst is not None:
+                listed = sh in inst.listCommands()
+                if listed != (int(v[-1]) % 2 == 0):
+                    problems.append('step %d: %s.listCommands() %s %s (a %s there)' % (
+                        si, v, 'lists' if listed else 'does not list', sh, 'command' if int(v[-1]) % 2 == 0 else 'helper method, not a command'))
             if inst is not None and b.conf.supybot.plugins.get(v).public() is not True:
                 problems.append('step %d: supybot.plugins.%s.public is not set for a loaded plugin' % (si, v))
         for net in nets:
@@ -529,6 +567,7 @@ def gen_trial(r, maxops):
     t['deprecated'] = sorted(v for v in VT if r.random() < 0.15)
     t['important'] = sorted(BASE) + ([r.choice(VT)] if r.random() < 0.3 else [])
     t['always'] = r.random() < 0.7
+    t['prec_raises'] = sorted(v for v in VT if r.random() < 0.1)      # their callPrecedence() raises
     return t
 
 WITNESS_RELOAD = {'before': {}, 'after': {}, 'class': 'witness',
@@ -659,7 +698,7 @@ def finding_status(ctx):
 
 def run(ctx):
     build = leanbuild.ensure(PROPERTY, THEOREMS, thorough=ctx.thorough, extractors=[])
-    n = 12000 if ctx.thorough else 1500
+    n = 9000 if ctx.thorough else 900
     cases, lines, spans = explore(ctx, n, corpus=[WITNESS_RELOAD, WITNESS_SELF] + load_corpus())
     if build.driver_ok:
         fill_model(cases, lines, spans)
